@@ -24,6 +24,18 @@
 (*                     labelled again), pk2dmerge() again (a fresh zeroed  *)
 (*                     out buffer per call); pk2dmerge always sums by the  *)
 (*                     labels the table holds NOW                          *)
+(*   DataSet histories dataset.py:665-700, 817-885, 985-1090 (DsHist > 0): *)
+(*                     the labelled table is saved and a dataset.DataSet   *)
+(*                     opened on the file.  The DataSet caches the loaded  *)
+(*                     table (_peaks_table), the 2D table (_pk2d) and the  *)
+(*                     merged table (_pk4d), the last two made on first    *)
+(*                     use with scale_factor = monitor_ref / monitor when  *)
+(*                     a monitor is set; set_monitor(name, ref) reads the  *)
+(*                     monitor, sets monitor_ref = ref(monitor) and calls  *)
+(*                     reset_peaks_cache (two independent tests drop _pk2d *)
+(*                     and _pk4d); get_cf_2d / get_cf_4d make a columnfile *)
+(*                     of ds.pk2d / ds.pk4d; save() + dataset.load() give  *)
+(*                     a new object holding monitor and monitor_ref        *)
 (*                                                                         *)
 (* Granularity: ONE shared-memory access of pkid per step.  The memory is  *)
 (* sequentially consistent per access (int64 loads / stores do not tear).  *)
@@ -48,12 +60,21 @@
 (*   post   [hist, rc]: the table operations done after the first merge    *)
 (*          (sequence of "numba" | "scipy" | "saveload" | "merge") and     *)
 (*          whether the table still holds its overlap list                 *)
+(*   ds     the DataSet: [open, closed, mon (monitor in force, 0 = none),  *)
+(*          c2, c4 (scale id the cached 2D / merged table was made with,   *)
+(*          -1 = nothing cached), ct (table loaded), hist (sequence of     *)
+(*          [op, arg, mon, ret]: operation, monitor in force after it,     *)
+(*          scale id of the table it returned)]                            *)
 (*                                                                         *)
 (* Actions  Grab, Read1, Read2, Write1, Write2 (sweep, per thread),        *)
 (*          EndSweep, CountStep, CountEnd, FixGrab, FixRead, FixRead2,     *)
 (*          FixWrite, FixEnd, Merge;  after the first merge (Hist > 0):    *)
 (*          RelabelNumba, RelabelScipy, SaveLoad, Remerge;  only with      *)
-(*          Bug = "pmerge": PMGrab, PMRead, PMWrite, PMEnd                 *)
+(*          Bug = "pmerge": PMGrab, PMRead, PMWrite, PMEnd;  DsHist > 0:   *)
+(*          DsOpen, then DsHist times any of DsRead2 (ds.pk2d /            *)
+(*          get_cf_2d), DsRead4 (ds.pk4d / get_cf_4d), DsTable,            *)
+(*          DsSetMonitor(m), DsReset, DsSaveLoad (those named in DsOps),   *)
+(*          then DsClose (pk2d and pk4d read once more)                    *)
 (*                                                                         *)
 (* Invariants (all interleavings, all instances of the configuration)      *)
 (*   TypeOK                                                                *)
@@ -75,6 +96,14 @@
 (*                 numbering; for every root r the row of r's label is the *)
 (*                 sum over Comp(r) (numbering-free form, this is what the *)
 (*                 harness compares)                                       *)
+(*   DsLaw         every table a DataSet operation returned - after ANY    *)
+(*                 history of reads, set_monitor, reset_peaks_cache, save  *)
+(*                 + load - is the table of the labels of the file with    *)
+(*                 the scale factors monitor_ref / monitor of the monitor  *)
+(*                 in force at that moment (none before the first          *)
+(*                 set_monitor): merged rows = sums over the members of    *)
+(*                 each label / each component, 2D intensities scaled      *)
+(*   DsCacheOK     a cached table was made with the monitor in force       *)
 (*   SweepLegal    (History) sweep complete => LegalSweep(pk0, pkid, nbad):*)
 (*                 pointwise non-increasing, nbad = 0 <=> unchanged,       *)
 (*                 nbad > 0 => the sum of pkid strictly decreased (this is *)
@@ -99,6 +128,9 @@
 (* with many members per merged peak spread over the threads - which is    *)
 (* why the harness merges >= 1e5 peaks in a few interleaved stars at every *)
 (* thread count and compares with exact integer sums.                      *)
+(* Bug = "elifcache": reset_peaks_cache with its second test made an elif  *)
+(* of the first; TLC refutes DsLaw by "both tables read, set_monitor,      *)
+(* merged table read" (LabelND_bugds.cfg).                                 *)
 (*                                                                         *)
 (* Not modelled, bound by the harness only (the model is covariant in      *)
 (* them): the values of the property table (MergeOK is an identity of      *)
@@ -108,7 +140,12 @@
 (* expectations), thread counts beyond 3 (every assignment of prange       *)
 (* indices to <= 3 threads is explored here, so uneven chunks are covered; *)
 (* the harness runs 1,2,3,4,5,7,8,12,16 and 17,24,32 in a child process),  *)
-(* the numba threading layer.  n = 0 is outside the scope (NSet >= 1: a    *)
+(* the numba threading layer.                                              *)
+(* Not in the DataSet histories: ds.load() INTO a DataSet that holds       *)
+(* tables already, a peaks file rewritten under an open DataSet, get_cf_*  *)
+(* answered from a column file on disk (the code warns it is out of date), *)
+(* ds.monitor assigned without reset_peaks_cache(); the spatial correction *)
+(* of the columnfile route (none is configured).  n = 0 is outside the scope (NSet >= 1: a    *)
 (* graph has nodes; get_clean_labels asserts labels[0] == 0, which is the  *)
 (* conjunct pkid[0] = 0 of Fixpoint).                                      *)
 (*                                                                         *)
@@ -118,7 +155,13 @@
 (* (chains that need several sweeps, stars), 1..3 threads; histories       *)
 (* (LabelND_hist.cfg): every edge list over <= 3 nodes with <= 2 positions *)
 (* followed by every sequence of <= 2 table operations, every renumbering  *)
-(* by the scipy route (115 instances x 19 histories = 2185 records).       *)
+(* by the scipy route (115 instances x 19 histories = 2185 records);       *)
+(* DataSet histories on the three one-edge graphs of 3 nodes (a merged     *)
+(* peak of two members on frames with different scale factors + a single   *)
+(* peak), two monitors: LabelND_ds.cfg every sequence of 3 of the 9        *)
+(* operations (729 histories), LabelND_dscore.cfg every sequence of 4 of   *)
+(* pk2d, pk4d, set_monitor x 2, reset (625), thorough: LabelND_ds4.cfg     *)
+(* (4 of 9: 6561) and LabelND_dsdeep.cfg (6 of 5: 15625).                  *)
 (***************************************************************************)
 EXTENDS Integers, Sequences, FiniteSets, TLC, Json
 
@@ -129,14 +172,21 @@ CONSTANTS NSet,      \* set of node counts
           OrdSet,    \* subset of 0..3: allowed load/store orders within an edge
           History,   \* BOOLEAN: keep pk0
           DoEmit,    \* BOOLEAN: print one JSON record per terminal state
-          Bug,       \* "none" | "max" | "onewrite" | "pmerge"
+          Bug,       \* "none" | "max" | "onewrite" | "pmerge" | "elifcache"
           Hist,      \* Nat: maximal number of table operations after the first merge (0: stop there)
+          DsHist,    \* Nat: number of DataSet operations after the labelled table was saved and a
+                     \*   dataset.DataSet opened on the file (0: no DataSet layer); every history is
+                     \*   closed by reading pk2d and pk4d once more (DsClose)
+          DsOps,     \* the DataSet operations of the histories: subset of {"pk2d", "pk4d", "cf2d", "cf4d",
+                     \*   "table", "setmon", "reset", "saveload"}
+          NMon,      \* 0..2: number of different monitors set_monitor may be called with
           Shape      \* "any": every edge list; "sorted": one edge list per multiset of edges
                      \*   (only with Static = FALSE); "tree": the spanning trees on n nodes
-                     \*   (edges a < b, listed once) - chains, stars and everything between
+                     \*   (edges a < b, listed once) - chains, stars and everything between;
+                     \*   "simple": one edge list per simple graph (edges a < b, listed once)
 
-VARIABLES g, owner, pkid, flip, todo, nbad, th, phase, ci, nlab, out, pk0, post
-vars == <<g, owner, pkid, flip, todo, nbad, th, phase, ci, nlab, out, pk0, post>>
+VARIABLES g, owner, pkid, flip, todo, nbad, th, phase, ci, nlab, out, pk0, post, ds
+vars == <<g, owner, pkid, flip, todo, nbad, th, phase, ci, nlab, out, pk0, post, ds>>
 
 ----------------------------------------------------------------------------
 (* generic helpers *)
@@ -185,11 +235,33 @@ OM(f) == 10 * f - 5
 DTY(f) == 7 - 3 * f * f
 SCN(f) == f + 1
 
+\* Which per-frame scale factors a table was made with ("scale id"):
+\*   NoScale   none (scale_factor=None)
+\*   Direct    the array SCN(f)/SDen handed to pk2dmerge / pk2d by the caller
+\*   m = 1, 2  what dataset.DataSet derives from monitor m (dataset.py:697-698, 830, 842):
+\*             scale_factor = monitor_ref / monitor with monitor = MONV(m) (counts per frame, read from
+\*             the master file by set_monitor(name_m, ref_m)) and monitor_ref = ref_m(monitor):
+\*             monitor 1 uses the default np.mean, monitor 2 a constant (the docstring's lambda)
+NoScale == 0
+Direct == 9
+MONV(m) == IF m = 1 THEN <<1, 3, 12, 8>> ELSE <<12, 2, 24, 3>>
+REFV(m) == IF m = 1 THEN (MONV(1)[1] + MONV(1)[2] + MONV(1)[3] + MONV(1)[4]) \div NF ELSE 6
+\* numerator over SDen of the scale factor of frame f (denominator 1 for NoScale)
+ScN(s, f) == IF s = NoScale THEN 1
+             ELSE IF s = Direct THEN SCN(f)
+             ELSE (REFV(s) * SDen) \div MONV(s)[f + 1]
+\* the quotients are exact (so that the numerators above ARE monitor_ref / monitor), the mean is an
+\* integer, and on every frame the four scale factors (none, direct, monitor 1, monitor 2) differ -
+\* except frame NF-1 where Direct = 1: a table made with one scale id is never a table of another
+ASSUME (MONV(1)[1] + MONV(1)[2] + MONV(1)[3] + MONV(1)[4]) % NF = 0
+ASSUME \A m \in 1..2 : \A f \in 0..NF-1 : (REFV(m) * SDen) % MONV(m)[f + 1] = 0
+ASSUME \A f \in 0..NF-1 : Cardinality({SDen, ScN(1, f), ScN(2, f), SCN(f)}) >= (IF f = NF - 1 THEN 3 ELSE 4)
+
 \* contribution of 2D peak k to the 7 rows of out (1-based rows 1..7 = out[0..6]);
-\* sc = 1 for the unscaled call, SCN(frame) for the scaled numerators
+\* scaled = the scale id: sc = 1 for the unscaled call, else the numerator of the frame's scale factor
 Row(k, scaled) ==
     LET f == FRM(k)
-        sc == IF scaled THEN SCN(f) ELSE 1 IN
+        sc == ScN(scaled, f) IN
     << S1(k), SI(k) * sc, SR(k) * sc, SC(k) * sc, OM(f) * SI(k) * sc, DTY(f) * SI(k) * sc, 1 >>
 
 \* numbapkmerge as written: for k in range(len(labels)): out[r, labels[k]] += ...
@@ -250,6 +322,10 @@ LegalSweepClause(n, ne, cmin, a, b, nb) ==
     ELSE "ok"
 
 ----------------------------------------------------------------------------
+\* no DataSet yet: mon = the monitor in force (0: none), c2 / c4 = the scale id the cached 2D / merged
+\* table was made with (-1: nothing cached), ct = the peaks table is cached
+DsInit0 == [open |-> FALSE, closed |-> FALSE, mon |-> 0, c2 |-> -1, c4 |-> -1, ct |-> FALSE, hist |-> <<>>]
+
 Idle == [pc |-> "idle", p |-> 0, pi |-> 0, pj |-> 0, ord |-> 0]
 AllIdle == \A t \in Threads : th[t].pc = "idle"
 IdMap(n) == [v \in 0..n-1 |-> v]
@@ -265,10 +341,15 @@ ShapeOK(n, ne, ei, ej) ==
           /\ \A e \in 0..ne-1 : ei[e] < ej[e]
           /\ \A e \in 0..ne-2 : EdgeKey(n, ei, ej, e) < EdgeKey(n, ei, ej, e + 1)
           /\ Reach(n, ne, ei, ej, {0}) = 0..n-1
+    /\ Shape = "simple" =>
+          /\ \A e \in 0..ne-1 : ei[e] < ej[e]
+          /\ \A e \in 0..ne-2 : EdgeKey(n, ei, ej, e) < EdgeKey(n, ei, ej, e + 1)
 
-ASSUME Shape \in {"any", "sorted", "tree"}
+ASSUME Shape \in {"any", "sorted", "tree", "simple"}
 ASSUME (Shape # "any") => ~Static
 ASSUME Hist \in Nat /\ (Bug = "pmerge" => Hist = 0)
+ASSUME DsHist \in Nat /\ NMon \in 0..2 /\ (Bug = "pmerge" => DsHist = 0)
+ASSUME DsOps \subseteq {"pk2d", "pk4d", "cf2d", "cf4d", "table", "setmon", "reset", "saveload"}
 
 Init ==
     /\ \E n \in NSet, ne \in ESet :
@@ -287,6 +368,7 @@ Init ==
     /\ nlab = 0
     /\ out = <<>>
     /\ post = [hist |-> <<>>, rc |-> TRUE]
+    /\ ds = DsInit0
 
 (* ---- the prange sweep of numbalabelNd -------------------------------- *)
 Mine(t) == IF Static THEN {k \in todo : owner[k] = t} ELSE todo
@@ -305,14 +387,14 @@ Grab(t) ==
           /\ todo' = todo \ {k}
           /\ th' = [th EXCEPT ![t] = [pc |-> "r1", p |-> k + flip * ((g.ne - 1) - 2 * k),
                                       pi |-> 0, pj |-> 0, ord |-> o]]
-    /\ UNCHANGED <<g, owner, pkid, flip, nbad, phase, ci, nlab, out, pk0, post>>
+    /\ UNCHANGED <<g, owner, pkid, flip, nbad, phase, ci, nlab, out, pk0, post, ds>>
 
 Read1(t) ==
     /\ phase = "sweep" /\ th[t].pc = "r1"
     /\ LET me == th[t] IN
        th' = [th EXCEPT ![t] = IF FirstLoadIsI(me.ord) THEN [me EXCEPT !.pc = "r2", !.pi = pkid[NodeI(t)]]
                                                         ELSE [me EXCEPT !.pc = "r2", !.pj = pkid[NodeJ(t)]]]
-    /\ UNCHANGED <<g, owner, pkid, flip, todo, nbad, phase, ci, nlab, out, pk0, post>>
+    /\ UNCHANGED <<g, owner, pkid, flip, todo, nbad, phase, ci, nlab, out, pk0, post, ds>>
 
 \* second load, then the thread-local test pi != pj
 Read2(t) ==
@@ -322,7 +404,7 @@ Read2(t) ==
            b == IF FirstLoadIsI(me.ord) THEN pkid[NodeJ(t)] ELSE me.pj IN
        th' = [th EXCEPT ![t] = IF a = b THEN Idle
                                 ELSE [me EXCEPT !.pc = "w1", !.pi = a, !.pj = b]]
-    /\ UNCHANGED <<g, owner, pkid, flip, todo, nbad, phase, ci, nlab, out, pk0, post>>
+    /\ UNCHANGED <<g, owner, pkid, flip, todo, nbad, phase, ci, nlab, out, pk0, post, ds>>
 
 M(t) == IF Bug = "max" THEN Max2(th[t].pi, th[t].pj) ELSE Min2(th[t].pi, th[t].pj)
 
@@ -330,7 +412,7 @@ Write1(t) ==
     /\ phase = "sweep" /\ th[t].pc = "w1"
     /\ pkid' = [pkid EXCEPT ![IF FirstStoreIsI(th[t].ord) THEN NodeI(t) ELSE NodeJ(t)] = M(t)]
     /\ th' = [th EXCEPT ![t].pc = "w2"]
-    /\ UNCHANGED <<g, owner, flip, todo, nbad, phase, ci, nlab, out, pk0, post>>
+    /\ UNCHANGED <<g, owner, flip, todo, nbad, phase, ci, nlab, out, pk0, post, ds>>
 
 \* second store and the reduction nbad += 1
 Write2(t) ==
@@ -339,7 +421,7 @@ Write2(t) ==
                ELSE [pkid EXCEPT ![IF FirstStoreIsI(th[t].ord) THEN NodeJ(t) ELSE NodeI(t)] = M(t)]
     /\ nbad' = nbad + 1
     /\ th' = [th EXCEPT ![t] = Idle]
-    /\ UNCHANGED <<g, owner, flip, todo, phase, ci, nlab, out, pk0, post>>
+    /\ UNCHANGED <<g, owner, flip, todo, phase, ci, nlab, out, pk0, post, ds>>
 
 SweepComplete == phase = "sweep" /\ todo = {} /\ AllIdle
 
@@ -354,7 +436,7 @@ EndSweep ==
             /\ pk0' = IF History THEN pkid ELSE pk0
             /\ UNCHANGED phase
     /\ nbad' = 0
-    /\ UNCHANGED <<g, owner, pkid, th, ci, nlab, out, post>>
+    /\ UNCHANGED <<g, owner, pkid, th, ci, nlab, out, post, ds>>
 
 (* ---- get_clean_labels -------------------------------------------------- *)
 \* the sequential loop `for i in range(len(labels))`
@@ -366,13 +448,13 @@ CountStep ==
        ELSE /\ pkid' = [pkid EXCEPT ![ci] = -pkid[ci]]
             /\ UNCHANGED nlab
     /\ ci' = ci + 1
-    /\ UNCHANGED <<g, owner, flip, todo, nbad, th, phase, out, pk0, post>>
+    /\ UNCHANGED <<g, owner, flip, todo, nbad, th, phase, out, pk0, post, ds>>
 
 CountEnd ==
     /\ phase = "count" /\ ci = g.n
     /\ phase' = "fix"
     /\ todo' = Nodes
-    /\ UNCHANGED <<g, owner, pkid, flip, nbad, th, ci, nlab, out, pk0, post>>
+    /\ UNCHANGED <<g, owner, pkid, flip, nbad, th, ci, nlab, out, pk0, post, ds>>
 
 \* the prange fix-up: j = labels[i]; if j < 0: labels[i] = labels[-j]
 FixGrab(t) ==
@@ -380,25 +462,25 @@ FixGrab(t) ==
     /\ \E i \in todo :
           /\ todo' = todo \ {i}
           /\ th' = [th EXCEPT ![t] = [Idle EXCEPT !.pc = "f1", !.p = i]]
-    /\ UNCHANGED <<g, owner, pkid, flip, nbad, phase, ci, nlab, out, pk0, post>>
+    /\ UNCHANGED <<g, owner, pkid, flip, nbad, phase, ci, nlab, out, pk0, post, ds>>
 
 FixRead(t) ==
     /\ phase = "fix" /\ th[t].pc = "f1"
     /\ LET me == th[t] IN
        th' = [th EXCEPT ![t] = IF pkid[me.p] < 0 THEN [me EXCEPT !.pc = "f2", !.pi = pkid[me.p]] ELSE Idle]
-    /\ UNCHANGED <<g, owner, pkid, flip, todo, nbad, phase, ci, nlab, out, pk0, post>>
+    /\ UNCHANGED <<g, owner, pkid, flip, todo, nbad, phase, ci, nlab, out, pk0, post, ds>>
 
 FixRead2(t) ==
     /\ phase = "fix" /\ th[t].pc = "f2"
     /\ LET me == th[t] IN
        th' = [th EXCEPT ![t] = [me EXCEPT !.pc = "f3", !.pj = pkid[-(me.pi)]]]
-    /\ UNCHANGED <<g, owner, pkid, flip, todo, nbad, phase, ci, nlab, out, pk0, post>>
+    /\ UNCHANGED <<g, owner, pkid, flip, todo, nbad, phase, ci, nlab, out, pk0, post, ds>>
 
 FixWrite(t) ==
     /\ phase = "fix" /\ th[t].pc = "f3"
     /\ pkid' = [pkid EXCEPT ![th[t].p] = th[t].pj]
     /\ th' = [th EXCEPT ![t] = Idle]
-    /\ UNCHANGED <<g, owner, flip, todo, nbad, phase, ci, nlab, out, pk0, post>>
+    /\ UNCHANGED <<g, owner, flip, todo, nbad, phase, ci, nlab, out, pk0, post, ds>>
 
 ZeroOut == [row \in 1..7 |-> [L \in 1..nlab |-> 0]]
 
@@ -408,14 +490,14 @@ FixEnd ==
     /\ IF Bug = "pmerge"
        THEN todo' = Nodes /\ out' = [u |-> ZeroOut, s |-> ZeroOut]     \* out = np.zeros((7, nlabel))
        ELSE UNCHANGED <<todo, out>>
-    /\ UNCHANGED <<g, owner, pkid, flip, nbad, th, ci, nlab, pk0, post>>
+    /\ UNCHANGED <<g, owner, pkid, flip, nbad, th, ci, nlab, pk0, post, ds>>
 
 (* ---- numbapkmerge (sequential) ----------------------------------------- *)
 Merge ==
     /\ phase = "merge" /\ Bug # "pmerge"
-    /\ out' = [u |-> MergeLoop(g.n, pkid, nlab, FALSE), s |-> MergeLoop(g.n, pkid, nlab, TRUE)]
+    /\ out' = [u |-> MergeLoop(g.n, pkid, nlab, NoScale), s |-> MergeLoop(g.n, pkid, nlab, Direct)]
     /\ phase' = "done"
-    /\ UNCHANGED <<g, owner, pkid, flip, todo, nbad, th, ci, nlab, pk0, post>>
+    /\ UNCHANGED <<g, owner, pkid, flip, todo, nbad, th, ci, nlab, pk0, post, ds>>
 
 (* ---- Bug = "pmerge": the merge loop as a prange; out[r, j] += x is a load (of the column *)
 (* ---- of label j, taken as one step) followed by a store                                  *)
@@ -427,33 +509,33 @@ PMGrab(t) ==
     /\ \E k \in todo :
           /\ todo' = todo \ {k}
           /\ th' = [th EXCEPT ![t] = [Idle EXCEPT !.pc = "m1", !.p = k]]
-    /\ UNCHANGED <<g, owner, pkid, flip, nbad, phase, ci, nlab, out, pk0, post>>
+    /\ UNCHANGED <<g, owner, pkid, flip, nbad, phase, ci, nlab, out, pk0, post, ds>>
 
 PMRead(t) ==
     /\ phase = "merge" /\ th[t].pc = "m1"
     /\ LET j == pkid[th[t].p] IN
        th' = [th EXCEPT ![t].pc = "m2", ![t].pi = <<Col(out.u, j), Col(out.s, j)>>]
-    /\ UNCHANGED <<g, owner, pkid, flip, todo, nbad, phase, ci, nlab, out, pk0, post>>
+    /\ UNCHANGED <<g, owner, pkid, flip, todo, nbad, phase, ci, nlab, out, pk0, post, ds>>
 
 PMWrite(t) ==
     /\ phase = "merge" /\ th[t].pc = "m2"
     /\ LET k == th[t].p
            j == pkid[k]
-           cu == [row \in 1..7 |-> th[t].pi[1][row] + Row(k, FALSE)[row]]
-           cs == [row \in 1..7 |-> th[t].pi[2][row] + Row(k, TRUE)[row]] IN
+           cu == [row \in 1..7 |-> th[t].pi[1][row] + Row(k, NoScale)[row]]
+           cs == [row \in 1..7 |-> th[t].pi[2][row] + Row(k, Direct)[row]] IN
        out' = [u |-> PutCol(out.u, j, cu), s |-> PutCol(out.s, j, cs)]
     /\ th' = [th EXCEPT ![t] = Idle]
-    /\ UNCHANGED <<g, owner, pkid, flip, todo, nbad, phase, ci, nlab, pk0, post>>
+    /\ UNCHANGED <<g, owner, pkid, flip, todo, nbad, phase, ci, nlab, pk0, post, ds>>
 
 PMEnd ==
     /\ phase = "merge" /\ Bug = "pmerge" /\ todo = {} /\ AllIdle
     /\ phase' = "done"
-    /\ UNCHANGED <<g, owner, pkid, flip, todo, nbad, th, ci, nlab, out, pk0, post>>
+    /\ UNCHANGED <<g, owner, pkid, flip, todo, nbad, th, ci, nlab, out, pk0, post, ds>>
 
 (* ---- what a user does with the labelled table (properties.py:343-563) --- *)
 \* Each operation invalidates the merged table (pk2dmerge recomputes it from the labels the table
 \* holds at that moment) and is followed by Merge.
-CanOp == phase = "done" /\ Len(post.hist) < Hist
+CanOp == phase = "done" /\ Len(post.hist) < Hist /\ ~ds.open
 
 \* find_uniq() again: the sweep loop restarts from arange(n); by Fixpoint / CleanOK (every schedule)
 \* its result is the rank numbering, so the step is taken atomically here
@@ -463,7 +545,7 @@ RelabelNumba ==
     /\ nlab' = Cardinality(Roots)
     /\ post' = [post EXCEPT !.hist = Append(@, "numba")]
     /\ phase' = "merge" /\ out' = <<>>
-    /\ UNCHANGED <<g, owner, flip, todo, nbad, th, ci, pk0>>
+    /\ UNCHANGED <<g, owner, flip, todo, nbad, th, ci, pk0, ds>>
 
 \* find_uniq(use_scipy=True): connected components numbered in scipy's own order
 Bijections(S) == {f \in [S -> S] : \A a, b \in S : f[a] = f[b] => a = b}
@@ -474,21 +556,97 @@ RelabelScipy ==
     /\ nlab' = Cardinality(Roots)
     /\ post' = [post EXCEPT !.hist = Append(@, "scipy")]
     /\ phase' = "merge" /\ out' = <<>>
-    /\ UNCHANGED <<g, owner, flip, todo, nbad, th, ci, pk0>>
+    /\ UNCHANGED <<g, owner, flip, todo, nbad, th, ci, pk0, ds>>
 
 \* save(h5) then pks_table.load(h5): glabel, nlabel, pk_props, ipk, npk come back; rc does not
 SaveLoad ==
     /\ CanOp
     /\ post' = [hist |-> Append(post.hist, "saveload"), rc |-> FALSE]
     /\ phase' = "merge" /\ out' = <<>>
-    /\ UNCHANGED <<g, owner, pkid, flip, todo, nbad, th, ci, nlab, pk0>>
+    /\ UNCHANGED <<g, owner, pkid, flip, todo, nbad, th, ci, nlab, pk0, ds>>
 
 \* pk2dmerge() once more on the same table (a new zeroed buffer per call)
 Remerge ==
     /\ CanOp
     /\ post' = [post EXCEPT !.hist = Append(@, "merge")]
     /\ phase' = "merge" /\ out' = <<>>
-    /\ UNCHANGED <<g, owner, pkid, flip, todo, nbad, th, ci, nlab, pk0>>
+    /\ UNCHANGED <<g, owner, pkid, flip, todo, nbad, th, ci, nlab, pk0, ds>>
+
+(* ---- the labelled table seen through dataset.DataSet (dataset.py:665-700, 817-885, 985-1090) ---- *)
+\* The table is saved (pks_table.save) and a DataSet is opened on the file.  The DataSet keeps three
+\* caches: _peaks_table (pks_table.load, once), _pk2d and _pk4d (the 2D table / the merged table, made
+\* on first use with scale_factor = monitor_ref / monitor when a monitor is set, else unscaled).
+\* set_monitor reads the monitor, sets monitor_ref and calls reset_peaks_cache, which drops _pk2d and
+\* _pk4d (two independent tests).  get_cf_2d / get_cf_4d (no column file on disk, or ignore_existing)
+\* turn ds.pk2d / ds.pk4d into a columnfile: the same caches.  save() writes monitor and monitor_ref
+\* with the other attributes; dataset.load() gives a new object (empty caches) holding them.
+\* Each operation is appended to ds.hist as [op, arg, mon, ret]: mon = the monitor in force after the
+\* operation, ret = the scale id of the table the operation returned (-1: it returns no table).
+DsEntry(op, arg, mon, ret) == [op |-> op, arg |-> arg, mon |-> mon, ret |-> ret]
+DsCan(op) == ds.open /\ ~ds.closed /\ Len(ds.hist) < DsHist /\ op \in DsOps
+DsKeep == UNCHANGED <<g, owner, pkid, flip, todo, nbad, th, phase, ci, nlab, out, pk0, post>>
+
+\* `if self._pk2d is None:` make it with the scale factors of the monitor in force; return the cache
+Fill(c) == IF c = -1 THEN ds.mon ELSE c
+
+\* reset_peaks_cache as written: `if self._pk2d is not None: self._pk2d = None` and then, independently,
+\* `if self._pk4d is not None: self._pk4d = None`.  Bug = "elifcache": the second test made an elif of
+\* the first (the merged table survives whenever a 2D table was cached)
+AfterReset4 == IF Bug = "elifcache" /\ ds.c2 # -1 THEN ds.c4 ELSE -1
+
+DsOpen ==
+    /\ phase = "done" /\ DsHist > 0 /\ ~ds.open
+    /\ ds' = [ds EXCEPT !.open = TRUE]
+    /\ DsKeep
+
+\* ds.pk2d (op = "pk2d") / ds.get_cf_2d() (op = "cf2d")
+DsRead2(op) ==
+    /\ DsCan(op) /\ op \in {"pk2d", "cf2d"}
+    /\ LET c == Fill(ds.c2) IN
+       ds' = [ds EXCEPT !.c2 = c, !.ct = TRUE, !.hist = Append(@, DsEntry(op, 0, ds.mon, c))]
+    /\ DsKeep
+
+\* ds.pk4d (op = "pk4d") / ds.get_cf_4d() (op = "cf4d")
+DsRead4(op) ==
+    /\ DsCan(op) /\ op \in {"pk4d", "cf4d"}
+    /\ LET c == Fill(ds.c4) IN
+       ds' = [ds EXCEPT !.c4 = c, !.ct = TRUE, !.hist = Append(@, DsEntry(op, 0, ds.mon, c))]
+    /\ DsKeep
+
+\* ds.peaks_table: the labels of the file
+DsTable ==
+    /\ DsCan("table")
+    /\ ds' = [ds EXCEPT !.ct = TRUE, !.hist = Append(@, DsEntry("table", 0, ds.mon, -1))]
+    /\ DsKeep
+
+\* ds.set_monitor(name_m, ref_m)
+DsSetMonitor(m) ==
+    /\ DsCan("setmon") /\ m \in 1..NMon
+    /\ ds' = [ds EXCEPT !.mon = m, !.c2 = -1, !.c4 = AfterReset4,
+                         !.hist = Append(@, DsEntry("setmon", m, m, -1))]
+    /\ DsKeep
+
+\* ds.reset_peaks_cache()
+DsReset ==
+    /\ DsCan("reset")
+    /\ ds' = [ds EXCEPT !.c2 = -1, !.c4 = AfterReset4, !.hist = Append(@, DsEntry("reset", 0, ds.mon, -1))]
+    /\ DsKeep
+
+\* ds.save(dsfile); ds = dataset.load(dsfile)
+DsSaveLoad ==
+    /\ DsCan("saveload")
+    /\ ds' = [ds EXCEPT !.c2 = -1, !.c4 = -1, !.ct = FALSE,
+                         !.hist = Append(@, DsEntry("saveload", 0, ds.mon, -1))]
+    /\ DsKeep
+
+\* every history is closed by ds.pk2d and ds.pk4d
+DsClose ==
+    /\ ds.open /\ ~ds.closed /\ Len(ds.hist) = DsHist
+    /\ LET a == Fill(ds.c2)
+           b == Fill(ds.c4) IN
+       ds' = [ds EXCEPT !.c2 = a, !.c4 = b, !.ct = TRUE, !.closed = TRUE,
+                        !.hist = @ \o << DsEntry("pk2d", 0, ds.mon, a), DsEntry("pk4d", 0, ds.mon, b) >>]
+    /\ DsKeep
 
 Next ==
     \/ \E t \in Threads : Grab(t) \/ Read1(t) \/ Read2(t) \/ Write1(t) \/ Write2(t)
@@ -500,6 +658,9 @@ Next ==
     \/ \E t \in Threads : PMGrab(t) \/ PMRead(t) \/ PMWrite(t)
     \/ PMEnd
     \/ RelabelNumba \/ RelabelScipy \/ SaveLoad \/ Remerge
+    \/ DsOpen \/ DsTable \/ DsReset \/ DsSaveLoad \/ DsClose
+    \/ \E op \in DsOps : DsRead2(op) \/ DsRead4(op)
+    \/ \E m \in 1..NMon : DsSetMonitor(m)
 
 Sym == Permutations(Threads)
 
@@ -520,6 +681,14 @@ TypeOK ==
     /\ ci \in 0..g.n /\ nlab \in 0..g.n
     /\ post.rc \in BOOLEAN /\ Len(post.hist) <= Hist
     /\ \A k \in 1..Len(post.hist) : post.hist[k] \in {"numba", "scipy", "saveload", "merge"}
+    /\ ds.open \in BOOLEAN /\ ds.closed \in BOOLEAN /\ ds.ct \in BOOLEAN
+    /\ ds.mon \in 0..NMon /\ ds.c2 \in -1..NMon /\ ds.c4 \in -1..NMon
+    /\ Len(ds.hist) <= DsHist + 2 /\ (ds.closed => Len(ds.hist) = DsHist + 2)
+    /\ (~ds.open => ds = DsInit0) /\ (ds.open => phase = "done")
+    /\ \A k \in 1..Len(ds.hist) :
+          /\ ds.hist[k].op \in DsOps \cup {"pk2d", "pk4d"}
+          /\ ds.hist[k].mon \in 0..NMon /\ ds.hist[k].ret \in -1..NMon
+          /\ (ds.hist[k].ret # -1) <=> (ds.hist[k].op \in {"pk2d", "pk4d", "cf2d", "cf4d"})
 
 InComp == phase = "sweep" =>
             \A v \in Nodes : pkid[v] \in Comp(v) /\ pkid[v] <= v
@@ -558,14 +727,36 @@ CleanOK == phase \in {"merge", "done"} =>
     /\ \A u, v \in Nodes : (pkid[u] = pkid[v]) <=> (v \in Reach(g.n, g.ne, g.ei, g.ej, {u}))
 
 MergeOK == phase = "done" =>
-    /\ out.u = MergeDefL(pkid, nlab, FALSE)
-    /\ out.s = MergeDefL(pkid, nlab, TRUE)
-    /\ Ranked => (out.u = MergeDef(FALSE) /\ out.s = MergeDef(TRUE))
+    /\ out.u = MergeDefL(pkid, nlab, NoScale)
+    /\ out.s = MergeDefL(pkid, nlab, Direct)
+    /\ Ranked => (out.u = MergeDef(NoScale) /\ out.s = MergeDef(Direct))
     \* numbering-free: the row of the label of root r holds the sums over r's component
     /\ \A r \in Roots : \A row \in 1..7 :
-          /\ out.u[row][pkid[r] + 1] = SumSet(Comp(r), [k \in Comp(r) |-> RowVal(k, FALSE, row)])
-          /\ out.s[row][pkid[r] + 1] = SumSet(Comp(r), [k \in Comp(r) |-> RowVal(k, TRUE, row)])
+          /\ out.u[row][pkid[r] + 1] = SumSet(Comp(r), [k \in Comp(r) |-> RowVal(k, NoScale, row)])
+          /\ out.s[row][pkid[r] + 1] = SumSet(Comp(r), [k \in Comp(r) |-> RowVal(k, Direct, row)])
     /\ \A L \in 1..nlab : out.u[2][L] > 0 /\ out.s[2][L] > 0
+
+\* the 2D table: sum_intensity of 2D peak k is sI * scale factor of its frame (numerator over SDen, or
+\* over 1 for NoScale); spot3d_id is the label the table holds
+Pk2dOf(sid) == [k \in Nodes |-> <<SI(k) * ScN(sid, FRM(k)), pkid[k]>>]
+
+\* a cached table was made with the scale factors in force NOW (what set_monitor / reset_peaks_cache
+\* are there for)
+DsCacheOK == ds.c2 \in {-1, ds.mon} /\ ds.c4 \in {-1, ds.mon}
+
+\* THE LAW of the DataSet route: whatever was done before, every table read - ds.pk2d, ds.pk4d,
+\* get_cf_2d, get_cf_4d - is the table of the CURRENT labels with the CURRENT scale factors: the merge
+\* loop run with the scale id the operation returned (ret) gives the sums over the members of every
+\* label weighted with the scale factors of the monitor in force at that moment (mon); the 2D table
+\* carries them likewise
+DsLaw == \A k \in 1..Len(ds.hist) :
+    LET e == ds.hist[k] IN
+    /\ e.op \in {"pk4d", "cf4d"} =>
+          /\ MergeLoop(g.n, pkid, nlab, e.ret) = MergeDefL(pkid, nlab, e.mon)
+          /\ \A r \in Roots : \A row \in 1..7 :
+                MergeLoop(g.n, pkid, nlab, e.ret)[row][pkid[r] + 1]
+                   = SumSet(Comp(r), [v \in Comp(r) |-> RowVal(v, e.mon, row)])
+    /\ e.op \in {"pk2d", "cf2d"} => Pk2dOf(e.ret) = Pk2dOf(e.mon)
 
 SweepLegal == (History /\ SweepComplete) =>
     LegalSweepClause(g.n, g.ne, g.cmin, pk0, pkid, nbad) = "ok"
@@ -587,7 +778,7 @@ NeverRaises == [][(phase = "sweep" /\ phase' = "sweep") => \A v \in Nodes : pkid
 RootSeq == [k \in 1..Cardinality(Roots) |-> CHOOSE r \in Roots : Rank(r) = k - 1]
 Rows(o) == [row \in 1..7 |-> [k \in 1..Cardinality(Roots) |-> o[row][pkid[RootSeq[k]] + 1]]]
 EmitInv ==
-    (DoEmit /\ phase = "done") =>
+    (DoEmit /\ phase = "done" /\ ~ds.open) =>
         PrintT("@@" \o ToJson(
             [n |-> g.n, ne |-> g.ne,
              ei |-> Seq0(g.ei, g.ne), ej |-> Seq0(g.ej, g.ne),
@@ -600,5 +791,25 @@ EmitInv ==
              omega |-> [f \in 1..NF |-> OM(f-1)], dty |-> [f \in 1..NF |-> DTY(f-1)],
              scalenum |-> [f \in 1..NF |-> SCN(f-1)], scaleden |-> SDen,
              outu |-> Rows(out.u), outs |-> Rows(out.s)]))
+
+\* one JSON record per closed DataSet history: the instance, the labels of the file, the operations with
+\* the monitor in force after each, and for every monitor (position m+1 = monitor m, 0 = none) the
+\* merged rows the law asks for
+EmitDs ==
+    (DoEmit /\ ds.closed) =>
+        PrintT("@@" \o ToJson(
+            [n |-> g.n, ne |-> g.ne,
+             ei |-> Seq0(g.ei, g.ne), ej |-> Seq0(g.ej, g.ne),
+             cmin |-> Seq0(g.cmin, g.n),
+             nlabel |-> nlab, labels |-> Seq0(pkid, g.n),
+             hist |-> post.hist, dshist |-> ds.hist,
+             props |-> << [k \in 1..g.n |-> S1(k-1)], [k \in 1..g.n |-> SI(k-1)],
+                          [k \in 1..g.n |-> SR(k-1)], [k \in 1..g.n |-> SC(k-1)],
+                          [k \in 1..g.n |-> FRM(k-1)] >>,
+             omega |-> [f \in 1..NF |-> OM(f-1)], dty |-> [f \in 1..NF |-> DTY(f-1)],
+             scaleden |-> SDen, monscaleden |-> [m \in 1..(NMon + 1) |-> IF m = 1 THEN 1 ELSE SDen],
+             monitor |-> [m \in 1..NMon |-> MONV(m)], monref |-> [m \in 1..NMon |-> REFV(m)],
+             monscale |-> [m \in 1..(NMon + 1) |-> [f \in 1..NF |-> ScN(m - 1, f - 1)]],
+             outm |-> [m \in 1..(NMon + 1) |-> Rows(MergeLoop(g.n, pkid, nlab, m - 1))]]))
 
 =============================================================================
